@@ -115,8 +115,11 @@ fn shape_case(ctx: &mut Ctx, rng: &mut Rng, i: u64) {
         ents.insert(0, String::new());
     }
     let path_text = ents.join(":");
+    // a PATH that consists of separators only: nowhere to search, the launch fails - without the allocator
+    let only_separators = rng.chance(40);
+    let path_text = if only_separators { ":".repeat(rng.range(1, 4) as usize) } else { path_text };
     // PATH is a byte string: an entry that is not valid UTF-8 is searched like any other
-    let odd_bytes = rng.chance(250);
+    let odd_bytes = !only_separators && rng.chance(250);
     let path_os: OsString = if odd_bytes {
         use std::os::unix::ffi::OsStringExt;
         let mut b = b"/nonexistent-\xff\xfe\xc3/bin:".to_vec();
@@ -250,7 +253,7 @@ fn shape_case(ctx: &mut Ctx, rng: &mut Rng, i: u64) {
     );
     if child_steps == 0 {
         ctx.inconclusive("forked child left no trace in the log (not exercised)", J::s(&shape));
-    } else if execs == 0 && fail_step.is_none() && cwd.is_none() {
+    } else if execs == 0 && fail_step.is_none() && cwd.is_none() && !(only_separators && use_path) {
         ctx.inconclusive("child never reached exec", J::s(&format!("{} {}", shape, err_text)));
     }
     if allocs > 0 {
